@@ -10,7 +10,7 @@
  * a, b, t (YANG text below) are created, the script runs, every tree slot still held is freed, the contexts are
  * destroyed. Output = one result per command joined by " | ", then the summary
  *
- *   end:d<u0>,<r0>/<u1>,<r1>:w<n>:k<n>[@<idx>:<cmd>[~<errclass>]]:l<n>
+ *   end:d<u0>,<r0>/<u1>,<r1>:w<n>:k<n>[@<idx>:<cmd>[~<errclass>]]:l<n>:n<n>
  *
  *   d  per context: dictionary strings / string references left compared with the state right after module loading
  *      (read after all trees are freed and the error records are cleaned, before ly_ctx_destroy) - must be 0,0/0,0
@@ -19,6 +19,7 @@
  *      functions) that are still allocated after the contexts are destroyed - must be 0; idx/cmd = the command during
  *      which the first such block was allocated, errclass = class of the error message of that command when it failed
  *   l  result of __lsan_do_recoverable_leak_check() (ASan build; 0 in other builds) - must be 0
+ *   n  number of "Value ... was not found in the dictionary" errors (a reference released twice / taken from another holder) - must be 0
  *
  * Slots: trees 0..7 (a slot holds the FIRST top-level sibling of a forest it owns, or NULL). A node is "<slot>.<i>" =
  * the (i mod count)-th node of the forest in DFS pre-order. Result of a command: "<name>:<rc>" followed by flags:
@@ -51,6 +52,7 @@
  *   freemeta N j s|a | freeattr N j s|a   lyd_free_meta_single|_siblings / lyd_free_attr_single|_siblings of the j-th element:
  *                               afterwards the chain must hold exactly the other elements (s) / the elements before it (a), in order
  *   dupmeta N j M | anystr N | anycopy N M|~   lyd_dup_meta_single / lyd_any_value_str / lyd_any_copy_value
+ *   lybrt S D popts vopts      LYB round trip: lyd_print_mem(T[S], LYD_LYB, siblings) and lyd_parse_data_mem of the result into slot D
  *   merge T S opts m K mod    lyd_merge_module with a callback that returns LY_EDENIED at its K-th call (0: never)
  *   apply T F K | dmerge F1 F2 opts K   lyd_diff_apply_module / lyd_diff_merge_module (all modules) with such a callback
  *   parse ctx fmt popts vopts data D | parsep N fmt popts vopts data | parseop ctx fmt r|n|y data D [N]
@@ -336,11 +338,25 @@ on_abort(int sig)
 /* ------------------------------------------------------------------------------------------------
  * fixed schema
  * ------------------------------------------------------------------------------------------------ */
+/* carries the typedef that the node-instance-identifier type plugin is registered for */
+static const char *MOD_ACM =
+        "module ietf-netconf-acm {yang-version 1.1; namespace \"urn:ietf:params:xml:ns:yang:ietf-netconf-acm\"; prefix nacm;"
+        " import ietf-yang-types {prefix yang;}"
+        " revision 2018-02-14;"
+        " typedef node-instance-identifier {type yang:xpath1.0;}"
+        "}";
+
 static const char *MOD_A =
         "module a {yang-version 1.1; namespace \"urn:a\"; prefix a;"
         " import ietf-yang-metadata {prefix md;}"
+        " import ietf-inet-types {prefix inet;}"
+        " import ietf-yang-types {prefix yang;}"
+        " import ietf-netconf-acm {prefix nacm;}"
         " md:annotation note {type string {length \"1..8\";}}"
         " md:annotation num {type int8;}"
+        " md:annotation ipm {type inet:ip-address;}"
+        " md:annotation xpm {type yang:xpath1.0;}"
+        " md:annotation iim {type instance-identifier {require-instance false;}}"
         " identity idb; identity id1 {base idb;} identity id2 {base idb;}"
         " container c {"
         "  leaf i8 {type int8 {range \"-5..100\";} default 7;}"
@@ -381,6 +397,52 @@ static const char *MOD_A =
         "  leaf em {type empty;}"
         "  leaf-list idl {type identityref {base idb;}}"
         " }"
+        /* every type plugin whose values own something (dictionary strings, compiled paths, buffers) */
+        " container tp {"
+        "  leaf ip4 {type inet:ipv4-address;}"
+        "  leaf ip6 {type inet:ipv6-address;}"
+        "  leaf ip {type inet:ip-address;}"
+        "  leaf ip4n {type inet:ipv4-address-no-zone;}"
+        "  leaf ip6n {type inet:ipv6-address-no-zone;}"
+        "  leaf pf4 {type inet:ipv4-prefix;}"
+        "  leaf pf6 {type inet:ipv6-prefix;}"
+        "  leaf pf {type inet:ip-prefix;}"
+        "  leaf host {type inet:host;}"
+        "  leaf bn {type binary;}"
+        "  leaf bt {type bits {bit b0; bit b1; bit b9 {position 9;}}}"
+        "  leaf ubb {type union {type bits {bit u0; bit u1;} type binary;}}"
+        "  leaf uip {type union {type inet:ipv4-address; type inet:ipv6-prefix; type instance-identifier {require-instance false;}"
+        "    type identityref {base idb;}}}"
+        "  leaf iid {type instance-identifier {require-instance false;}}"
+        "  leaf idr {type identityref {base idb;}}"
+        "  leaf xp {type yang:xpath1.0;}"
+        "  leaf nii {type nacm:node-instance-identifier;}"
+        "  leaf dt {type yang:date-and-time;}"
+        "  leaf hex {type yang:hex-string;}"
+        "  leaf mac {type yang:mac-address;}"
+        "  leaf uuid {type yang:uuid;}"
+        "  leaf dc {type decimal64 {fraction-digits 3;}}"
+        "  leaf lr4 {type leafref {path \"../ip4\";}}"
+        "  leaf lrip {type leafref {path \"../ip\"; require-instance false;}}"
+        "  leaf lrxp {type leafref {path \"../xp\";}}"
+        "  leaf lrid {type leafref {path \"../idr\";}}"
+        "  leaf-list ipl {type inet:ip-address; ordered-by user;}"
+        /* values that are resolved again at validation time: unions with leafref / instance-identifier / identityref members */
+        "  leaf ulid {type union {type leafref {path \"../idr\";} type string;}}"
+        "  leaf ulxp {type union {type leafref {path \"../xp\";} type string;}}"
+        "  leaf ulii {type union {type leafref {path \"../iid\";} type string;}}"
+        "  leaf ulbt {type union {type leafref {path \"../bt\";} type string;}}"
+        "  leaf ulbn {type union {type leafref {path \"../bn\";} type string;}}"
+        "  leaf ulip {type union {type leafref {path \"../ip\";} type inet:ipv6-prefix; type string;}}"
+        "  leaf uiis {type union {type instance-identifier; type string;}}"
+        "  leaf uids {type union {type leafref {path \"../lrid\";} type identityref {base idb;} type string;}}"
+        "  leaf ull {type union {type leafref {path \"../ip4\";} type leafref {path \"../idr\";}"
+        "    type union {type leafref {path \"../xp\";} type int8;} type string;}}"
+        /* user-ordered: lyplg_type_sort_union() asserts on two values stored through different leafref members (their realtype is
+         * the target's type, which is not in the list of member types) */
+        "  leaf-list ulidl {ordered-by user; type union {type leafref {path \"../idr\";} type leafref {path \"../dt\";} type string;}}"
+        "  list ipk {key \"a p\"; leaf a {type inet:ip-address;} leaf p {type inet:ip-prefix;} leaf x {type yang:xpath1.0;}}"
+        " }"
         "}";
 
 static const char *MOD_B =
@@ -405,7 +467,7 @@ static struct lyd_node *T[NT];
 static unsigned gen_diff;       /* slots that hold a diff produced by lyd_diff_siblings / lyd_diff_reverse_all / lyd_diff_merge_all */
 static unsigned used_unknown;   /* contexts whose number of distinct strings can no longer be predicted (a module was loaded) */
 static long base_used[NCTX], base_refs[NCTX];  /* dictionary strings / references right after module loading */
-static int notfreed_warn;
+static int notfreed_warn, notfound_err;
 static int debug;
 
 static void
@@ -417,6 +479,10 @@ log_cb(LY_LOG_LEVEL level, const char *msg, const char *data_path, const char *s
     }
     if (msg && strstr(msg, "not freed")) {
         ++notfreed_warn;
+    }
+    if (msg && strstr(msg, "was not found in the dictionary")) {
+        /* a reference was released that nobody held (or that belonged to someone else) */
+        ++notfound_err;
     }
 }
 
@@ -1224,8 +1290,9 @@ run_cmd(char **w, int nw, struct cmdres *r)
             sb_str(&r->flags, "OUT!");
         }
     } else if (!strcmp(c, "path") || !strcmp(c, "path1")) {
-        /* path N|<slot> ctx path val opts : lyd_new_path2 (path1: lyd_new_path); parent = node N, or NULL when the slot
-         * is empty (the new tree then goes into the slot) */
+        /* path N|<slot> ctx path val opts [t<slot>] : lyd_new_path2 (path1: lyd_new_path); parent = node N, or NULL when the slot
+         * is empty (the new tree then goes into the slot); t<slot>: the value is the data tree in that slot
+         * (LYD_ANYDATA_DATATREE, copied); a string value is taken as XML / JSON / string by its first character */
         struct lyd_node *parent, *np = NULL, *nn = NULL;
         int s;
         char *p, *v;
@@ -1257,7 +1324,16 @@ run_cmd(char **w, int nw, struct cmdres *r)
         if (c[4]) {
             r->rc = lyd_new_path(parent, ctx, p, v, opts, &np);
         } else {
-            r->rc = lyd_new_path2(parent, ctx, p, v, v ? strlen(v) : 0, LYD_ANYDATA_STRING, opts, &np, &nn);
+            if ((nw > 6) && (w[6][0] == 't')) {
+                int vs = slot_of(w[6] + 1);
+
+                if ((vs == s) || !T[vs] || (LYD_CTX(T[vs]) != (parent ? LYD_CTX(parent) : ctx))) {
+                    SKIP();
+                }
+                r->rc = lyd_new_path2(parent, ctx, p, T[vs], 0, LYD_ANYDATA_DATATREE, opts, &np, &nn);
+            } else {
+                r->rc = lyd_new_path2(parent, ctx, p, v, v ? strlen(v) : 0, LYD_ANYDATA_STRING, opts, &np, &nn);
+            }
         }
         r->fail = r->rc ? 1 : 0;
         if (r->rc && (np || nn)) {
@@ -2211,6 +2287,37 @@ run_cmd(char **w, int nw, struct cmdres *r)
             sb_str(&r->flags, "+pbuf");
         }
         free(str);
+    } else if (!strcmp(c, "lybrt")) {
+        /* lybrt S D popts vopts */
+        int s, d;
+        char *str = NULL;
+        struct lyd_node *tree = NULL;
+        const struct ly_ctx *ctx;
+
+        NEED(5);
+        s = slot_of(w[1]);
+        if (!T[s] || !all_top(T[s]) || has_opaq(T[s])) {
+            /* LYB is printed for data trees of the context */
+            SKIP();
+        }
+        ctx = LYD_CTX(T[s]);
+        if ((d = take_dest(w[2], r, s, -1)) < 0) {
+            SKIP();
+        }
+        r->ectx = ctx;
+        r->rc = lyd_print_mem(&str, T[s], LYD_LYB, LYD_PRINT_WITHSIBLINGS);
+        if (!r->rc && str) {
+            r->rc = lyd_parse_data_mem(ctx, str, LYD_LYB, OPTS(w[3]) & LYD_PARSE_OPTS_MASK & ~LYD_PARSE_OPAQ,
+                    OPTS(w[4]) & LYD_VALIDATE_OPTS_MASK, &tree);
+        }
+        r->fail = r->rc ? 1 : 0;
+        if (r->rc && tree) {
+            sb_str(&r->flags, "OUT!");
+            lyd_free_all(tree);
+            tree = NULL;
+        }
+        free(str);
+        T[d] = tree;
     } else if (!strcmp(c, "lys")) {
         /* lys ctx text : lys_parse_mem into the live context */
         int ci = (w[1][0] == '1') ? 1 : 0;
@@ -2236,7 +2343,7 @@ run_cmd(char **w, int nw, struct cmdres *r)
             uint32_t idx = 0, n = 0;
             int recompiled = 1;
 
-            if (!ly_ctx_new(NULL, LY_CTX_NO_YANGLIBRARY, &sc) && !lys_parse_mem(sc, MOD_A, LYS_IN_YANG, NULL) &&
+            if (!ly_ctx_new(NULL, LY_CTX_NO_YANGLIBRARY, &sc) && !lys_parse_mem(sc, MOD_ACM, LYS_IN_YANG, NULL) && !lys_parse_mem(sc, MOD_A, LYS_IN_YANG, NULL) &&
                     !lys_parse_mem(sc, MOD_B, LYS_IN_YANG, NULL) && !lys_parse_mem(sc, MOD_T, LYS_IN_YANG, NULL)) {
                 while ((m = ly_ctx_get_module_iter(sc, &idx)) && (n < 32)) {
                     comp[n++] = m->compiled;
@@ -2301,7 +2408,7 @@ setup(void)
         if (ly_ctx_new(NULL, LY_CTX_NO_YANGLIBRARY, &C[i])) {
             return "ctx";
         }
-        if (lys_parse_mem(C[i], MOD_A, LYS_IN_YANG, NULL) || lys_parse_mem(C[i], MOD_B, LYS_IN_YANG, NULL) ||
+        if (lys_parse_mem(C[i], MOD_ACM, LYS_IN_YANG, NULL) || lys_parse_mem(C[i], MOD_A, LYS_IN_YANG, NULL) || lys_parse_mem(C[i], MOD_B, LYS_IN_YANG, NULL) ||
                 lys_parse_mem(C[i], MOD_T, LYS_IN_YANG, NULL)) {
             return "mod";
         }
@@ -2363,6 +2470,7 @@ main(void)
         memset(dbg0, 0, sizeof dbg0);
         sb_reset(&o);
         notfreed_warn = 0;
+        notfound_err = 0;
         alarm(20);      /* a case that hangs (observed: a loop over freed nodes in the plain build) ends as a crash by SIGALRM */
         gen_diff = 0;
         used_unknown = 0;
@@ -2563,7 +2671,7 @@ main(void)
         if (leaks) {
             sb_fmt(&o, "@%ld:%s%s%s", leak_cmd, leak_name, leak_err[0] ? "~" : "", leak_err);
         }
-        sb_fmt(&o, ":l%d", lsan);
+        sb_fmt(&o, ":l%d:n%d", lsan, notfound_err);
         alarm(0);
         fputs(o.s, stdout);
         __real_free(names);
